@@ -52,6 +52,9 @@ pub struct SimProfile {
     pub connect_timeout_ms: u64,
     pub stop_permille: u64,
     pub stop_while_ping_outstanding_pct: u64,
+    /// share of publishes sent with a present-but-empty payload (the operation is then identified by a
+    /// unique topic instead of the tag in the payload)
+    pub empty_payload_pct: u64,
     pub stop_with_props: bool,
     pub mid_reset_permille: u64,
     pub max_steps: usize,
@@ -78,7 +81,7 @@ impl Default for SimProfile {
             discipline: Discipline::Contract, audit: false, prompt: true, n_ops: 10, op_weights: [2, 3, 3, 1, 1], op_gap_max_ms: 20, payload_extra_max: 40,
             big_payload_pct: 5, user_props_max: 2, ack_timeout_choices: vec![None], topics: vec!["a/b".into(), "a/c".into(), "d".into(), "e/f/g".into(), "hh/i".into()],
             manual_alias: false, close_permille: 0, forced_close_steps: vec![], max_conns: 4, reconnect_delay_max_ms: 50, write_chunk_max: 0, write_stall_pct: 0,
-            flush_error_pct: 0, deliver_chunk_max: 0, connect_timeout_ms: 30_000, stop_permille: 0, stop_while_ping_outstanding_pct: 0, stop_with_props: false, mid_reset_permille: 0, max_steps: 5000,
+            flush_error_pct: 0, deliver_chunk_max: 0, connect_timeout_ms: 30_000, stop_permille: 0, stop_while_ping_outstanding_pct: 0, empty_payload_pct: 0, stop_with_props: false, mid_reset_permille: 0, max_steps: 5000,
             horizon_ms: 4_000_000, invalid_op_pct: 0, sub_id_pct: 0, retain_pct: 10, wildcard_pct: 20, shared_pct: 0, idle_tail_ms: 0, jitter_max_ms: 0, ack_timeout_max_pct: 0,
         }
     }
@@ -156,6 +159,11 @@ impl OpGen {
                 let topic = self.rng.pick(&p.topics).clone();
                 let mut spec = PublishSpec { topic, qos: which as u8, payload: Some(tagged_payload(tag, &extra)), ..Default::default() };
                 if self.rng.chance(p.retain_pct, 100) { spec.retain = true; }
+                if p.empty_payload_pct > 0 && self.rng.chance(p.empty_payload_pct, 100) {
+                    // e.g. clearing a retained message: payload present but empty
+                    spec.payload = Some(Vec::new());
+                    spec.topic = crate::world::tagged_filter(tag, "e");
+                }
                 if v5 {
                     spec.user_props = self.user_props(p.user_props_max);
                     if self.rng.chance(1, 6) { spec.content_type = Some("text/plain".into()); }
